@@ -413,7 +413,7 @@ def r20c(ctx, P):
                   "non-explain path returns. Every definition of the rank_limit value that is controlled by the true arm of a test on "
                   "`explain` derives from the segment's live_docs()/doc count and from nothing request-sized (limit, cursor, "
                   "candidate_size)")
-    f = P.fn(N.READER + "::search")
+    f = P.inlined(N.READER + "::search", depth=1, small=40)      # a small `rank limit for this segment` helper is read in place
     if not ctx.anchor(rid, f, "IndexReader::search"):
         return
     adt = P.adts.get("searchlite_core::api::reader::SegmentSearchParams")
@@ -436,8 +436,12 @@ def r20c(ctx, P):
         while l is not None and l not in seen:
             seen.add(l)
             dfs = [d for d in defs.get(l, []) if not d.get("partial")]
-            if f.locals[l].get("name") or len(dfs) != 1 or dfs[0]["k"] != "assign" or dfs[0]["rv"]["k"] not in ("use", "cast") or \
-                    op_local(dfs[0]["rv"]["a"]) is None:
+            single_copy = len(dfs) == 1 and dfs[0]["k"] == "assign" and dfs[0]["rv"]["k"] in ("use", "cast") and \
+                op_local(dfs[0]["rv"]["a"]) is not None
+            # the value handed back by an inlined helper: continue with the helper's own return place
+            from_helper = single_copy and dfs[0].get("i") is not None and dfs[0]["i"] < len(f.blocks[dfs[0]["b"]]["stmts"]) and \
+                f.blocks[dfs[0]["b"]]["stmts"][dfs[0]["i"]].get("inlined_ret")
+            if (f.locals[l].get("name") and not from_helper) or not single_copy:
                 break
             l = op_local(dfs[0]["rv"]["a"])
         if l is None:
